@@ -30,6 +30,7 @@ Expect(pre, e) ==
     [] e.op = "remove_child"    -> IF Has(K[a[1]], a[2]) THEN Good(RemoveChildF(pre, a[1], a[2]), 0) ELSE Fail(pre, a)
     [] e.op = "remove_children" -> Good(RemoveChildrenF(pre, a[1]), 0)
     [] e.op = "replace_child"   -> IF Has(K[a[1]], a[2]) /\ pre.name[a[2]] = pre.name[a[3]]
+                                      /\ ((B(a[4]) /\ a[2] # a[3]) => Desc(K, a[2]) \subseteq pre.store)    \* deleting an unregistered node fails: nothing changes
                                    THEN Good(ReplaceChildF(pre, a[1], a[2], a[3], B(a[4])), 0) ELSE Fail(pre, a)
     [] e.op = "shift"           -> IF Has(K[a[1]], a[2])
                                    THEN Good(ShiftF(pre, a[1], a[2], a[3], B(a[4])), ShiftRet(pre, a[1], a[2], a[3], B(a[4])))
@@ -53,7 +54,7 @@ Precond(pre, e) ==
   LET a == e.args  K == pre.kids IN
   CASE e.op = "add_child"     -> CanAttach(K, a[1], a[2])            \* any integer position: Steps!PyPos gives list.insert's meaning
     [] e.op = "replace_child" -> ((a[2] = a[3] /\ Has(K[a[1]], a[2])) \/ (CanAttach(K, a[1], a[3]) /\ a[2] # a[3]))
-                                 /\ (B(a[4]) /\ Has(K[a[1]], a[2]) => Desc(K, a[2]) \subseteq pre.store)
+                                 \* (an old child that is no longer registered is no usage error: the call fails, see Expect)
     [] e.op = "delete"        -> a[1] \in pre.store /\ (B(a[2]) => Desc(K, a[1]) \subseteq pre.store)
     [] OTHER -> TRUE
 
